@@ -141,15 +141,16 @@ class LocalFileObjectStore(model.AbstractObjectStore):
             raise KeyError("No Identifiable with hash {} found in local file database".format(hash_)) from e
         # If we still have a local replication of that object (since it is referenced from anywhere else), update that
         # replication and return it.
+        # The lookup and the insertion of the new replication happen within one critical section, so that two threads
+        # retrieving the same object concurrently can never end up with two different local replications.
         with self._object_cache_lock:
-            if obj.id in self._object_cache:
-                old_obj = self._object_cache[obj.id]
-                # If the source does not match the correct source for this CouchDB backend, the object seems to belong
-                # to another backend now, so we return a fresh copy
-                if old_obj.source == obj.source:
-                    old_obj.update_from(obj)
-                    return old_obj
-        self._object_cache[obj.id] = obj
+            old_obj = self._object_cache.get(obj.id)
+            # If the source does not match the correct source for this CouchDB backend, the object seems to belong
+            # to another backend now, so we return a fresh copy
+            if old_obj is not None and old_obj.source == obj.source:
+                old_obj.update_from(obj)
+                return old_obj
+            self._object_cache[obj.id] = obj
         return obj
 
     def get_identifiable(self, identifier: model.Identifier) -> model.Identifiable:
